@@ -322,26 +322,43 @@ def updateLeaf (prio : Priority) (old : Dict) (defs : Option Tree) (k : Key) (v 
         if m then .ok (dset old k v) else .ok old
       else .ok old
 
-/-- `update(old, new, priority, defaults)` over the items of `new`. -/
-def update (env : Env) (prio : Priority) (old : Dict) (defs : Option Tree) :
-    List (Key × Tree) → Except Err Dict
-  | [] => .ok old
+/-- `update(old, new, priority, defaults)` over the items of `new`, with Python's in-place
+semantics: the dictionary as mutated so far is returned together with the exception (if
+any) that stopped the loop. -/
+def updateP (env : Env) (prio : Priority) (old : Dict) (defs : Option Tree) :
+    List (Key × Tree) → Dict × Option Err
+  | [] => (old, .none)
   | (k0, .node sub) :: rest =>
       -- check_key_val: a mapping under the key "device" is not a device
-      if k0 = "device".toList then .error .typeError else do
+      if k0 = "device".toList then (old, some .typeError) else
       let k := canonicalName k0 old
       -- `if k not in old or old[k] is None or not isinstance(old[k], dict): old[k] = {}`
       let (old1, cur) := match dget old k with
         | some (.node cur) => (old, cur)
         | _ => (dset old k (.node []), [])
-      let sd ← defaultsGet defs k     -- `defaults.get(k) if defaults else None`
-      let inner ← update env prio cur sd sub
-      update env prio (dset old1 k (.node inner)) defs rest
-  | (k0, .leaf a) :: rest => do
-      let v ← checkKeyVal env k0 (.leaf a)
-      let k := canonicalName k0 old
-      let old' ← updateLeaf prio old defs k v
-      update env prio old' defs rest
+      match defaultsGet defs k with     -- `defaults.get(k) if defaults else None`
+      | .error e => (old1, some e)
+      | .ok sd =>
+          let r := updateP env prio cur sd sub
+          let old2 := dset old1 k (.node r.1)
+          match r.2 with
+          | some e => (old2, some e)
+          | .none => updateP env prio old2 defs rest
+  | (k0, .leaf a) :: rest =>
+      match checkKeyVal env k0 (.leaf a) with
+      | .error e => (old, some e)
+      | .ok v =>
+          let k := canonicalName k0 old
+          match updateLeaf prio old defs k v with
+          | .error e => (old, some e)
+          | .ok old' => updateP env prio old' defs rest
+
+/-- `update` as a function: the result when no exception was raised -/
+def update (env : Env) (prio : Priority) (old : Dict) (defs : Option Tree) (new : List (Key × Tree)) :
+    Except Err Dict :=
+  match updateP env prio old defs new with
+  | (d, .none) => .ok d
+  | (_, some e) => .error e
 
 /-- `merge(*dicts)` -/
 def merge (env : Env) : List Dict → Except Err Dict
@@ -375,5 +392,31 @@ def updateDefaults (env : Env) (s : State) (new : Dict) : Except Err State := do
   -- that case as an error and the harness stops the sequence there.
   let cfg ← update env .newDefaults s.config (some (.node cur)) new'
   .ok { s1 with config := cfg }
+
+/-! ### the same operations with Python's in-place semantics on failure (driver) -/
+
+/-- `refresh()`: `config.clear()`, then one `update` per default; an exception leaves the
+configuration half rebuilt -/
+def refreshP (env : Env) (s : State) : State × Option Err :=
+  let rec go (cfg : Dict) : List Dict → Dict × Option Err
+    | [] => (cfg, .none)
+    | d :: rest =>
+        match updateP env .new cfg .none d with
+        | (cfg', .none) => go cfg' rest
+        | (cfg', some e) => (cfg', some e)
+  let r := go [] s.defaults
+  ({ s with config := r.1 }, r.2)
+
+/-- `update_defaults(new)`: validation and `merge(*defaults)` happen before
+`defaults.append(new)`; the final `update` mutates the configuration in place -/
+def updateDefaultsP (env : Env) (s : State) (new : Dict) : State × Option Err :=
+  match normaliseTop env new with
+  | .error e => (s, some e)
+  | .ok new' =>
+      match merge env s.defaults with
+      | .error e => (s, some e)
+      | .ok cur =>
+          let r := updateP env .newDefaults s.config (some (.node cur)) new'
+          ({ config := r.1, defaults := s.defaults ++ [new'] }, r.2)
 
 end QuantemModel.Config
